@@ -280,6 +280,116 @@ def inline_site(caller, bb, callee):
     caller.setdefault('inlined', []).append(callee['name'])
 
 
+_OPTION_COMBINATORS = {'is_some_and': 2, 'is_none_or': 2, 'map_or': 3, 'map': 2, 'and_then': 2, 'filter': 2}
+
+
+def desugar_option_combinators(crates, table=None):
+    """`opt.map_or(d, f)`, `opt.is_some_and(f)`, `opt.map(f)`, `opt.and_then(f)`, `opt.is_none_or(f)` with f a closure
+    written at the call site (one the reference table does not know) or a function item are `match opt { Some(x) =>
+    f(x), None => d }` spelled with a combinator.  Rewrite the call into that match: a branch on the discriminant, the
+    closure / function called on the payload on the Some side (a later pass splices closure bodies), the default on
+    the None side.  Behaviour is unchanged; the rules then see the branch and the guarded expression they know from
+    the match spelling.  Returns [(combinator, caller name)]."""
+    done = []
+    ref_names = set(table['fns']) if table else set()
+    for c in crates:
+        by_key = {f['key']: f for f in c['fns']}
+        for f in c['fns']:
+            if not f.get('blocks'):
+                continue
+            defs = {}
+            for blk in f['blocks']:
+                for st in blk['st']:
+                    if st['k'] == 'assign' and not st['pl']['p']:
+                        defs.setdefault(st['pl']['l'], []).append(st)
+            nb = len(f['blocks'])
+            for bi in range(nb):
+                blk = f['blocks'][bi]
+                t = blk['term']
+                if t['k'] != 'call' or t.get('t', -1) is None or t.get('t', -1) < 0:
+                    continue
+                m = re.match(r'^(?:std|core)::option::Option::(\w+)$', t.get('calleep') or '')
+                if not m or m.group(1) not in _OPTION_COMBINATORS or len(t['args']) != _OPTION_COMBINATORS[m.group(1)]:
+                    continue
+                comb = m.group(1)
+                o, fop = t['args'][0], t['args'][-1]
+                if o['k'] not in ('copy', 'move'):
+                    continue
+                # the callable: a closure built in this function, unknown to the reference tree -- or a function item
+                callee = None
+                if fop['k'] == 'const' and fop.get('fn'):
+                    callee = ('fn', fop['fn'], fop.get('fnp') or fop['fn'])
+                elif fop['k'] in ('copy', 'move') and not fop['pl']['p']:
+                    ds = defs.get(fop['pl']['l'], [])
+                    if len(ds) == 1 and ds[0]['rv']['k'] == 'agg' and ds[0]['rv'].get('ak') == 'closure':
+                        cl = by_key.get(ds[0]['rv']['name'])
+                        if cl is not None and cl['name'] not in ref_names and cl.get('blocks'):
+                            callee = ('closure', cl['key'], cl['name'])
+                if callee is None:
+                    continue
+                line = t.get('line')
+                dest, nxt = t['dest'], t['t']
+                locs = f['locals']
+
+                def new_local(ty):
+                    locs.append(ty)
+                    return len(locs) - 1
+                d_l = new_local('isize')
+                p_l = new_local('?')
+                some_pl = {'l': o['pl']['l'], 'p': list(o['pl']['p']) + [{'k': 'downcast', 'n': 'Some', 'v': 1},
+                                                                       {'k': 'field', 'i': 0, 'n': '0', 'adt': 'core::option::Option', 'ty': '?', 'union': False}]}
+                bs, bn = len(f['blocks']), len(f['blocks']) + 1
+                blk['st'].append({'k': 'assign', 'line': line, 'pl': {'l': d_l, 'p': []}, 'rv': {'k': 'discr', 'pl': {'l': o['pl']['l'], 'p': list(o['pl']['p'])}}})
+                blk['term'] = {'k': 'switch', 'line': line, 'd': {'k': 'move', 'pl': {'l': d_l, 'p': []}}, 'ts': [['1', bs]], 'o': bn, 'desugared': comb}
+                # Some side
+                some_st = [{'k': 'assign', 'line': line, 'pl': {'l': p_l, 'p': []}, 'rv': {'k': 'use', 'o': {'k': 'move', 'pl': some_pl}}}]
+                call_dest = dest
+                after = nxt
+                extra = []
+                if comb == 'filter':
+                    # the predicate sees a reference to the payload; the Option itself is passed on where it holds
+                    r_l = new_local('&?')
+                    c_l = new_local('bool')
+                    some_st = [{'k': 'assign', 'line': line, 'pl': {'l': r_l, 'p': []}, 'rv': {'k': 'ref', 'mut': False, 'pl': copy.deepcopy(some_pl)}}]
+                    p_l = r_l
+                    call_dest = {'l': c_l, 'p': []}
+                    after = len(f['blocks']) + 2
+                    keep = len(f['blocks']) + 3
+                    extra = [{'st': [], 'term': {'k': 'switch', 'line': line, 'd': {'k': 'move', 'pl': {'l': c_l, 'p': []}}, 'ts': [['0', bn]], 'o': keep}},
+                             {'st': [{'k': 'assign', 'line': line, 'pl': copy.deepcopy(dest), 'rv': {'k': 'use', 'o': copy.deepcopy(o)}}], 'term': {'k': 'goto', 't': nxt}}]
+                if comb == 'map':
+                    r_l = new_local('?')
+                    call_dest = {'l': r_l, 'p': []}
+                    after = len(f['blocks']) + 2
+                    extra = [{'st': [{'k': 'assign', 'line': line, 'pl': copy.deepcopy(dest), 'rv': {'k': 'agg', 'ak': 'adt', 'name': 'core::option::Option', 'variant': 'Some',
+                                                                                 'ops': [{'k': 'move', 'pl': {'l': r_l, 'p': []}}]}}],
+                              'term': {'k': 'goto', 't': nxt}}]
+                if callee[0] == 'fn':
+                    call = {'k': 'call', 'line': line, 'exp': False, 'callee': callee[1], 'calleep': callee[2], 'res': callee[1], 'resp': callee[2], 'gen': '[]',
+                            'unsafe': False, 'local': callee[1] in by_key, 'fnop': None, 'args': [{'k': 'move', 'pl': {'l': p_l, 'p': []}}], 'dest': call_dest, 't': after}
+                else:
+                    t_l = new_local('(?,)')
+                    some_st.append({'k': 'assign', 'line': line, 'pl': {'l': t_l, 'p': []}, 'rv': {'k': 'agg', 'ak': 'tuple', 'name': '', 'variant': '',
+                                                                                              'ops': [{'k': 'move', 'pl': {'l': p_l, 'p': []}}]}})
+                    call = {'k': 'call', 'line': line, 'exp': False, 'callee': 'core::ops::function::FnOnce::call_once', 'calleep': 'core::ops::function::FnOnce::call_once',
+                            'res': callee[1], 'resp': callee[2], 'gen': '[]', 'unsafe': False, 'local': True, 'fnop': None,
+                            'args': [copy.deepcopy(fop), {'k': 'move', 'pl': {'l': t_l, 'p': []}}], 'dest': call_dest, 't': after}
+                f['blocks'].append({'st': some_st, 'term': call, 'cleanup': False})
+                # None side
+                if comb == 'map_or':
+                    rv = {'k': 'use', 'o': copy.deepcopy(t['args'][1])}
+                elif comb in ('map', 'and_then', 'filter'):
+                    rv = {'k': 'agg', 'ak': 'adt', 'name': 'core::option::Option', 'variant': 'None', 'ops': []}
+                else:
+                    rv = {'k': 'use', 'o': {'k': 'const', 'ty': 'bool', 'int': '1' if comb == 'is_none_or' else '0'}}
+                f['blocks'].append({'st': [{'k': 'assign', 'line': line, 'pl': copy.deepcopy(dest), 'rv': rv}], 'term': {'k': 'goto', 't': nxt}, 'cleanup': False})
+                for x_ in extra:
+                    x_.setdefault('cleanup', False)
+                f['blocks'].extend(extra)
+                done.append((comb, f['name']))
+    return done
+
+
 def inline_local_closure_calls(crates, table=None):
     """A closure defined in a function and called directly by it (`let f = |x| ..; f(a)`) is straight-line code
     with a name: splice its body into each direct call site (rust-call ABI: the argument tuple is spread over the
@@ -306,8 +416,8 @@ def inline_local_closure_calls(crates, table=None):
                     if _has_loop(cl) and _loop_free_in_reference(table, f):
                         continue   # (same reason as for helper functions)
                     # defined in this function (or in a closure of it): parent chain reaches f
-                    if cl.get('parent_fn') not in (f['key'], f.get('parent_fn') or '-'):
-                        continue
+                    # (defined in this function, in a closure of it, or in a helper that was spliced into it: in every
+                    # case the call resolves to that one closure body)
                     if any(b2['term']['k'] == 'call' and b2['term'].get('res') == cl['key'] for b2 in cl['blocks']):
                         continue
                     site = (bi, cl)
